@@ -23,8 +23,18 @@ struct Base {
     model: (Vec<u128>, Vec<u128>, Vec<u128>, Vec<bool>),
 }
 
-fn base_world(fees: [u128; 3], liq: u128) -> Base {
-    let wd = seeded_world([fees, fees], [liq, liq]);
+/// `pending`: the world starts with uncollected protocol fees from an earlier, honestly repaid loan on each vault
+fn base_world(fees: [u128; 3], liq: u128, pending: bool) -> Base {
+    let mut wd = seeded_world([fees, fees], [liq, liq]);
+    if pending {
+        let mut dummy = Acc::new(0);
+        for v in 0..2 {
+            let amt = liq / 3;
+            let s = Sym { pre: Pre::None, pre_swallow: false, repay_first: false, rep: Rep::Exact };
+            let script = bind(&wd, v, amt, &s, 0);
+            let _ = monitored_loan(&mut dummy, &mut wd, 1, v, amt, How::Direct(script), "warm-up loan (leaves pending protocol fees)");
+        }
+    }
     let snap = snap(&wd.app);
     let model = (wd.charged.clone(), wd.sent.clone(), wd.burned.clone(), wd.first_done.clone());
     Base { wd, snap, model }
@@ -127,8 +137,11 @@ pub fn run(ctx: &Ctx) -> (CheckMeta, Acc) {
     let total = run_shards(ctx, 16, |sh, acc| {
         let mut idx: u64 = 0;
         let replay_h = ctx.replay.as_ref().map(|r| r.history);
-        for (fi, f) in fees.iter().enumerate() {
-            let mut base = base_world(*f, liq);
+        for (fi2, f) in fees.iter().flat_map(|f| [(f, false), (f, true)]).enumerate() {
+            let (fi, pending) = (fi2 / 2, f.1);
+            let f = f.0;
+            let mut base = base_world(*f, liq, pending);
+            acc.count(if pending { "base.with-pending-protocol-fees" } else { "base.fresh" });
             // depth 1: full product; router payloads: full product
             for v in 0..2 {
                 for ai in 0..6 {
@@ -151,7 +164,7 @@ pub fn run(ctx: &Ctx) -> (CheckMeta, Acc) {
                 }
             }
             // depth 2: exhaustive over scripts; quick restricts amounts to {half, all} and fee sets {typical+burn, zero}
-            let d2_fee_ok = thorough || fi == 2 || fi == 0;
+            let d2_fee_ok = thorough || (fi == 2 && pending) || (fi == 0 && !pending);
             if d2_fee_ok {
                 for v in 0..2 {
                     for ai in 0..6 {
@@ -176,7 +189,7 @@ pub fn run(ctx: &Ctx) -> (CheckMeta, Acc) {
         acc.notes.insert("enumerated_index_max".into(), json!(idx));
         // depth 3: seeded sample
         let ph = hash_str("C06-depth3");
-        let mut bases: Vec<Base> = fees.iter().map(|f| base_world(*f, liq)).collect();
+        let mut bases: Vec<Base> = fees.iter().flat_map(|f| [base_world(*f, liq, false), base_world(*f, liq, true)]).collect();
         let per = d3_samples / 16 + 1;
         for i in 0..per {
             let hid = 2_000_000_000 + i;
@@ -191,17 +204,18 @@ pub fn run(ctx: &Ctx) -> (CheckMeta, Acc) {
             let v = r.idx(2);
             let ai = r.idx(6);
             acc.count("depth3.sampled");
-            run_case(acc, &mut bases[fi], v, ai, Some(&s), None, fi);
+            let pend = r.idx(2);
+            run_case(acc, &mut bases[fi * 2 + pend], v, ai, Some(&s), None, fi);
         }
     });
     let meta = CheckMeta {
         level: "fault_enumeration",
-        rule: format!("borrower alphabet: pre-action in {{none, deposit, withdraw, collect, update-config attempt, fail, panic}} x {{propagating, swallowed}} (+ repay-first variants) x repay mode in {{exact, minus1, plus(k), nothing, principal-only}} = {} depth-1 scripts; nested loans (same/other vault, all/half of what is left, propagating/swallowed) carry a script of the previous depth: {} depth-2 scripts. Enumerated exhaustively: depth-1 scripts and the 8 router payload kinds over the full product {{native, cw20}} x 6 loan amounts {{1, 999, 1000, bal/2, bal, bal+1}} x 5 fee triples; depth-2 scripts over {} ; depth-3 scripts are a seeded sample. Every top-level transaction is judged by L0-L9 (+V1, C07 ledger, U1). evaluations = transactions; distinct = distinct (kind, vault, amount index, fee set, script label, committed?) tuples.", d1.len(), d2.len(), if thorough { "the full product" } else { "amounts {bal/2, bal} x fee sets {zero, typical-with-burn} x both vaults" }),
+        rule: format!("borrower alphabet: pre-action in {{none, deposit, withdraw, collect, update-config attempt, fail, panic}} x {{propagating, swallowed}} (+ repay-first variants) x repay mode in {{exact, minus1, plus(k), nothing, principal-only}} = {} depth-1 scripts; nested loans (same/other vault, all/half of what is left, propagating/swallowed) carry a script of the previous depth: {} depth-2 scripts. Enumerated exhaustively: depth-1 scripts and the 8 router payload kinds over the full product {{native, cw20}} x 6 loan amounts {{1, 999, 1000, bal/2, bal, bal+1}} x 5 fee triples x {{fresh vault, vault holding uncollected protocol fees of an earlier loan}}; depth-2 scripts over {} ; depth-3 scripts are a seeded sample. Every top-level transaction is judged by L0-L9 (+V1, C07 ledger, U1). evaluations = transactions; distinct = distinct (kind, vault, amount index, fee set, script label, committed?) tuples.", d1.len(), d2.len(), if thorough { "the full product" } else { "amounts {bal/2, bal} x fee sets {zero, typical-with-burn} x both vaults" }),
         assumptions: vec![
             "committed facts of a transaction are read from its event list (cw-multi-test drops the events of reverted sub-messages) and from state diffs".into(),
             "the borrower's swallowed sub-calls are wrapped in a self-call with reply_on: Error".into(),
         ],
-        obligations: vec!["loan.ok".into(), "loan.reverted".into(), "loan.ok.with-nested-loans".into(), "check.L1.vault-gain".into(), "check.L3.burn-destroyed".into(), "check.L5.counter-zero".into(), "check.L6.no-mint-during-loan".into(), "check.L7.router-keeps-nothing".into(), "check.L8.exact-suffices".into(), "check.L9.one-less-never-suffices".into(), "check.L8.router-exact-suffices".into(), "check.L9.router-one-less-never-suffices".into(), "depth3.sampled".into(), "check.U1".into()],
+        obligations: vec!["loan.ok".into(), "loan.reverted".into(), "loan.ok.with-nested-loans".into(), "check.L1.vault-gain".into(), "check.L3.burn-destroyed".into(), "check.L5.counter-zero".into(), "check.L6.no-mint-during-loan".into(), "check.L7.router-keeps-nothing".into(), "check.L8.exact-suffices".into(), "check.L9.one-less-never-suffices".into(), "check.L8.router-exact-suffices".into(), "check.L9.router-one-less-never-suffices".into(), "depth3.sampled".into(), "check.U1".into(), "base.with-pending-protocol-fees".into()],
     };
     (meta, total)
 }
